@@ -274,12 +274,158 @@ def gen_weights(rng, k, normalised=True):
     return [Fraction(x, s) for x in a]
 
 
-def gen_case(rng, chk, kind, prec):
+# ---- keys of the SVDistribution dict ------------------------------------------------------------
+# Members of a mixture may share basis states; a photon-number sector of a superposed member may even BE another
+# member (or a sector of another member): `_preprocess_svd` then accumulates the weights of the equal keys.  Whether
+# two StateVectors are one key is decided natively on floats; it is deterministic for one-component vectors with a
+# real positive coefficient (c/|c| = 1.0 exactly, measured on 2·10⁴ values) and for vectors that are not positively
+# proportional (clearly different floats).  The generator therefore presents every overlap EXCEPT exact positive
+# proportionality of two parts that are not both one-component with real positive coefficients (and never two equal
+# members: they would be one entry of the input dict).
+def sectors(terms):
+    """the photon-number sectors `_split_by_photon_count` makes of a superposition of unequal photon numbers"""
+    ns = [sum(len(x) for x in t["state"]) for t in terms]
+    if len(terms) <= 1 or len(set(ns)) <= 1:
+        return []
+    out = []
+    for n in dict.fromkeys(ns):
+        out.append([t for t, k in zip(terms, ns) if k == n])
+    return out
+
+
+def pos_proportional(ta, tb):
+    """the two (un-normalised) superpositions are the same normalised state vector: same basis states, coefficients
+    differing by one positive real factor (exact, on the rational rescaled coefficients)"""
+    da = {canon_key(t["state"]): (Fraction(t["coef"][0]), Fraction(t["coef"][1])) for t in ta}
+    db = {canon_key(t["state"]): (Fraction(t["coef"][0]), Fraction(t["coef"][1])) for t in tb}
+    if set(da) != set(db) or len(da) != len(ta) or len(db) != len(tb):
+        return False
+    k0 = next(iter(da))
+    (a, b), (c, d) = da[k0], db[k0]
+    den = c * c + d * d
+    lr, li = (a * c + b * d) / den, (b * c - a * d) / den
+    if li != 0 or lr <= 0:
+        return False
+    return all(da[k] == (lr * db[k][0], lr * db[k][1]) for k in da)
+
+
+def real_positive(terms):
+    return len(terms) == 1 and Fraction(terms[0]["coef"][1]) == 0 and Fraction(terms[0]["coef"][0]) > 0
+
+
+def keys_ok(members):
+    parts = [(mb["terms"], True) for mb in members]
+    for mb in members:
+        parts += [(sec, False) for sec in sectors(mb["terms"])]
+    for (ta, oa), (tb, ob) in itertools.combinations(parts, 2):
+        if pos_proportional(ta, tb):
+            if not (real_positive(ta) and real_positive(tb)) or (oa and ob):
+                return False
+    return True
+
+
+def overlap_info(members):
+    """-> set of shapes: 'shared' (two members share a basis state), 'member+sector' (a sector of a superposed member
+    is another member: `trimmed_svd[sv] += p` on an existing key), 'sector+sector' (two members have an equal sector:
+    `to_add[split_sv] += prob`)"""
+    out = set()
+    sets = [set(canon_key(t["state"]) for t in mb["terms"]) for mb in members]
+    if any(a & b for a, b in itertools.combinations(sets, 2)):
+        out.add("shared")
+    secs = [(i, sec) for i, mb in enumerate(members) for sec in sectors(mb["terms"])]
+    for i, sec in secs:
+        for j, mb in enumerate(members):
+            if j != i and pos_proportional(sec, mb["terms"]):
+                out.add("member+sector")
+    for (i, sa), (j, sb) in itertools.combinations(secs, 2):
+        if i != j and pos_proportional(sa, sb):
+            out.add("sector+sector")
+    return out
+
+
+def gen_pos_coef(rng):
+    return [core.rat(Fraction(rng.randint(1, 4), rng.randint(1, 3))), "0"]
+
+
+def state_n(st):
+    return sum(len(x) for x in st)
+
+
+def add_overlaps(rng, m, nm, ntags, members):
+    """members sharing basis states, a Fock member that is a photon-number sector of a superposed member, two
+    superposed members with a common sector.  Returns the new list (the old one when nothing valid was found)"""
+    def weight():
+        return core.rat(Fraction(rng.randint(1, 9), rng.choice([10, 20, 40])))
+
+    def other_state(n_not, avoid):
+        for _ in range(50):
+            n = rng.choice([k for k in range(0, nm + 1) if k != n_not] or [n_not + 1])
+            st = gen_state(rng, m, n, ntags)
+            if canon_key(st) not in avoid:
+                return st
+        return None
+
+    for _ in range(8):
+        new = copy.deepcopy(members)
+        states = [t["state"] for mb in new for t in mb["terms"]]
+        shape = rng.choice(["share", "fock-sector", "fock-sector", "two-sectors", "fock-sector+two"])
+        if shape == "share":
+            if not states:
+                continue
+            pick = rng.sample(states, min(len(states), rng.randint(1, 2)))
+            extra = gen_state(rng, m, rng.randint(0, nm), ntags)
+            cand, seen = [], set()
+            for st in pick + [extra]:
+                if canon_key(st) not in seen:
+                    seen.add(canon_key(st))
+                    cand.append({"coef": gen_coef(rng), "state": st})
+            if len(cand) < 2:
+                continue
+            new.append({"w": weight(), "terms": cand})
+        else:
+            singles = [mb for mb in new if len(mb["terms"]) == 1]
+            if singles and rng.random() < 0.6:
+                x = rng.choice(singles)["terms"][0]["state"]
+            else:
+                x = gen_state(rng, m, rng.randint(0, nm), ntags)
+            nx = state_n(x)
+            n_super = 2 if shape in ("two-sectors", "fock-sector+two") else 1
+            avoid = {canon_key(x)}
+            for _ in range(n_super):
+                y = other_state(nx, avoid)
+                if y is None:
+                    break
+                avoid.add(canon_key(y))
+                cx = gen_pos_coef(rng) if rng.random() < 0.75 else gen_coef(rng)
+                terms = [{"coef": cx, "state": x}, {"coef": gen_coef(rng), "state": y}]
+                if rng.random() < 0.4:
+                    for _ in range(20):
+                        z = gen_state(rng, m, state_n(y), ntags)
+                        if canon_key(z) not in avoid:
+                            avoid.add(canon_key(z))
+                            terms.append({"coef": gen_coef(rng), "state": z})
+                            break
+                rng.shuffle(terms)
+                new.append({"w": weight(), "terms": terms})
+            if shape != "two-sectors" and not any(len(mb["terms"]) == 1 and canon_key(mb["terms"][0]["state"]) == canon_key(x)
+                                                  for mb in new):
+                new.append({"w": weight(), "terms": [{"coef": ["1", "0"], "state": x}]})
+        if keys_ok(new):
+            rng.shuffle(new)
+            return new
+    return members
+
+
+def gen_case(rng, chk, kind, prec, fixed=None):
     big = chk.thorough
     m = rng.choice([2, 3, 3, 4] if not big else [2, 3, 3, 4, 4, 5])
+    if fixed:
+        m = fixed["m"]
     nmax = {2: 4, 3: 4, 4: 3, 5: 3}[m] if not big else {2: 5, 3: 4, 4: 4, 5: 3}[m]
     case = {"kind": kind, "m": m, "engine": rng.choice(ENGINES), "prec": prec,
             "circ": gen_circuit_spec(rng, m, rng.randint(2, 6))}
+    if fixed:
+        case["engine"], case["circ"] = fixed["engine"], fixed["circ"]
     if kind == "bs":
         n = rng.choice([0, 1, 2, 2, 3, 3, nmax, nmax])
         ntags = rng.choice([0, 1, 2, 2, 3, 3, 4])
@@ -338,23 +484,85 @@ def gen_case(rng, chk, kind, prec):
                         members.append({"w": core.rat(Fraction(rng.choice([1, 3, 10, 40, 137, 300]), 1000)),
                                         "terms": terms})
             rng.shuffle(members)
+        if rng.random() < 0.4:
+            members = add_overlaps(rng, m, nm, ntags, members)
         case["members"] = members
     elif kind == "dm":
-        m = rng.choice([2, 3, 3] if not big else [2, 3, 3, 4])
+        if not fixed:
+            m = rng.choice([2, 3, 3] if not big else [2, 3, 3, 4])
+            case["m"] = m
+            case["circ"] = gen_circuit_spec(rng, m, rng.randint(2, 5))
         nm = {2: 3, 3: 3, 4: 2}[m]
-        case["m"] = m
-        case["circ"] = gen_circuit_spec(rng, m, rng.randint(2, 5))
+        case["members"] = gen_dm_members(rng, m, nm)
+    return case
+
+
+def gen_dm_members(rng, m, nm, force_n=None, first=None):
+    """un-annotated members of a density matrix; members may share basis states (fresh `used` per member);
+    `force_n`: some term has exactly that many photons and none has more (fixes n_max of the FockBasis);
+    `first`: a basis state that must be populated"""
+    for _ in range(30):
         k = rng.randint(1, 4)
         used = set()
         members = []
         for w in gen_weights(rng, k, normalised=(rng.random() < 0.8)):
-            terms = gen_terms(rng, m, nm, 0, rng.randint(1, 3), rng.random() < 0.5, used)
+            if rng.random() < 0.4:
+                used = set()
+            terms = gen_terms(rng, m, nm if force_n is None else force_n, 0, rng.randint(1, 3), rng.random() < 0.5, used)
             if terms:
                 if len(terms) == 1:
                     terms[0]["coef"] = ["1", "0"]
                 members.append({"w": core.rat(w), "terms": terms})
-        case["members"] = members
-    return case
+        if first is not None:
+            members.append({"w": core.rat(Fraction(rng.randint(1, 9), 10)), "terms": [{"coef": ["1", "0"], "state": first}]})
+        if not members:
+            continue
+        if force_n is not None and max(state_n(t["state"]) for mb in members for t in mb["terms"]) != force_n:
+            st = gen_state(rng, m, force_n, 0)
+            members.append({"w": core.rat(Fraction(rng.randint(1, 9), 10)), "terms": [{"coef": ["1", "0"], "state": st}]})
+        if keys_ok(members):
+            return members
+    return [{"w": "1", "terms": [{"coef": ["1", "0"], "state": gen_state(rng, m, force_n or 1, 0)}]}]
+
+
+def gen_session(rng, chk):
+    """ONE long-lived Simulator (one circuit) answering a sequence of different requests: density matrices living in
+    the same FockBasis (m, n_max) but populating other basis states, mixtures, superpositions, tagged Fock states"""
+    big = chk.thorough
+    m = rng.choice([2, 3, 3] if not big else [2, 3, 3, 4])
+    nm = {2: 3, 3: 3, 4: 2}[m]
+    fixed = {"m": m, "engine": rng.choice(ENGINES), "circ": gen_circuit_spec(rng, m, rng.randint(2, 5))}
+    n_dm = rng.choice([0, 2, 2, 2, 3])
+    kinds = ["dm"] * n_dm + [rng.choice(["bs", "sv", "svd", "svd"]) for _ in range(rng.randint(1, 2) if n_dm else rng.randint(3, 4))]
+    rng.shuffle(kinds)
+    force_n = rng.randint(1, nm)
+    steps = []
+    populated = set()
+    for kd in kinds:
+        if kd == "dm":
+            # mostly the same FockBasis as the earlier density matrices of the session, and a basis state none of
+            # them populated; sometimes another n_max, sometimes a sub-support
+            fn = force_n if rng.random() < 0.8 else rng.randint(1, nm)
+            first = None
+            if populated and rng.random() < 0.8:
+                for _ in range(30):
+                    st = gen_state(rng, m, rng.randint(0, fn), 0)
+                    if tuple(occ(st)) not in populated:
+                        first = st
+                        break
+            members = gen_dm_members(rng, m, nm, fn, first)
+            if first is not None and rng.random() < 0.3:
+                members = [mb for mb in members if len(mb["terms"]) == 1 and mb["terms"][0]["state"] == first] or members
+                if not keys_ok(members) or max(state_n(t["state"]) for mb in members for t in mb["terms"]) != fn:
+                    members = gen_dm_members(rng, m, nm, fn, first)
+            populated |= {tuple(occ(t["state"])) for mb in members for t in mb["terms"]}
+            steps.append({"kind": "dm", "members": members})
+        else:
+            sub = gen_case(rng, chk, kd, "0", fixed)
+            if sub["members"]:
+                steps.append({"kind": kd, "members": sub["members"], "outs": sub.get("outs", [])})
+    return {"kind": "session", "m": m, "engine": fixed["engine"], "prec": "0", "circ": fixed["circ"], "steps": steps,
+            "members": [mb for st in steps for mb in st["members"]]}
 
 
 def gen_malformed(rng):
@@ -405,6 +613,13 @@ def lean_request(case, u):
         nmax = max(sum(len(x) for x in t["state"]) for mb in case["members"] for t in mb["terms"])
         return dict(base, op="dm", members=lean_members(case, True), nmax=nmax)
     raise ValueError(kind)
+
+
+def lean_requests(case, u):
+    """-> list of requests (one per request of a session)"""
+    if case["kind"] == "session":
+        return [lean_request(step_case(case, st), u) for st in case["steps"]]
+    return [lean_request(case, u)]
 
 
 # ------------------------------------------------------------------------------------------------
@@ -609,6 +824,31 @@ def split_parts(members):
     return parts
 
 
+def code_theta(members, prec):
+    """the relative threshold `_preprocess_svd` ends with: precision × the largest weight met — of a member, or of a
+    key after the sectors of the split superpositions were accumulated onto equal keys (see `keys_ok`)"""
+    ws = [float(Fraction(mb["w"])) for mb in members]
+    maxp = max(ws)
+    th1 = max(float(MINP), maxp * prec)
+    trimmed, to_add = {}, {}
+    for i, (mb, w) in enumerate(zip(members, ws)):
+        if w > th1:
+            key = ("k", canon_key(mb["terms"][0]["state"])) if real_positive(mb["terms"]) else ("m", i)
+            trimmed[key] = w
+    for i, (mb, w) in enumerate(zip(members, ws)):
+        secs = sectors(mb["terms"])
+        if w > th1 and secs:
+            cs = [abs(cq(t["coef"])) ** 2 * term_scale(t["state"]) for t in mb["terms"]]
+            for j, sec in enumerate(secs):
+                share = sum(c for c, t in zip(cs, mb["terms"]) if any(t is x for x in sec)) / sum(cs)
+                key = ("k", canon_key(sec[0]["state"])) if real_positive(sec) else ("s", i, j)
+                to_add[key] = to_add.get(key, 0.0) + w * share
+    for key, p in to_add.items():
+        trimmed[key] = trimmed.get(key, 0.0) + p
+        maxp = max(maxp, trimmed[key])
+    return max(float(MINP), maxp * prec)
+
+
 def part_budget(u, m, terms, thr2):
     """one kept member: `thr2[t]` = largest squared modulus of a product of group amplitudes of term t that may be
     neglected (0: none).  -> ({occupation: largest change of its probability}, their sum)"""
@@ -646,7 +886,7 @@ def precision_budget(u, m, members, prec=DEFAULT_PREC):
     (d[o] + P[o]·D)/(1 − D)"""
     parts = split_parts(members)
     tot = sum(float(Fraction(mb["w"])) for mb in members)
-    theta = max(float(MINP), max(float(Fraction(mb["w"])) for mb in members) * prec)
+    theta = code_theta(members, prec)
     d, big_d = {}, 0.0
     info = {"theta": theta, "trimmed": 0, "multi_group_superposed": 0, "window": 0}
     for w, terms in parts:
@@ -726,7 +966,10 @@ def eval_case(chk, case, rep=None, prepared=None):
     m = case["m"]
     circuit, u = prepared or prepare(case)
     if rep is None:
-        rep = chk.lean.ask(lean_request(case, u))
+        if kind == "session":
+            rep = [chk.lean.ask(r) for r in lean_requests(case, u)]
+        else:
+            rep = chk.lean.ask(lean_request(case, u))
     fails = []
 
     def record(sig, what, spec_agrees, prop_fails, detail=None):
@@ -759,20 +1002,29 @@ def eval_case(chk, case, rep=None, prepared=None):
             record("rejection-mismatch", f"tagged density matrix: code {real}, model {rep}", False, False)
         return fails
 
-    if "err" in rep:
-        raise core.LeanError(f"model rejected a well-formed case: {rep['err']}")
     prec = 0 if case["prec"] == "0" else None
     sim = make_sim(case["engine"], circuit, prec)
+    if kind == "session":
+        return judge_session(chk, case, rep, sim, circuit, u)
+    return judge_one(chk, case, rep, sim, circuit, u)
+
+
+JUDGES = {}
+
+
+def judge_one(chk, case, rep, sim, circuit, u):
+    """one request answered by `sim` (a new simulator, or the long-lived one of a session) -> list of failures"""
+    kind = case["kind"]
+    fails = []
+    if "err" in rep:
+        raise core.LeanError(f"model rejected a well-formed case: {rep['err']}")
+
+    def record(sig, what, spec_agrees, prop_fails, detail=None):
+        k = "violation" if (prop_fails or spec_agrees) else "broken"
+        fails.append((k, sig, what, dict(detail or {}, case=case)))
 
     try:
-        if kind == "bs":
-            judge_bs(chk, case, rep, sim, circuit, u, record)
-        elif kind == "sv":
-            judge_sv(chk, case, rep, sim, circuit, u, record)
-        elif kind == "svd":
-            judge_svd(chk, case, rep, sim, circuit, u, record)
-        elif kind == "dm":
-            judge_dm(chk, case, rep, sim, circuit, u, record)
+        JUDGES[kind](chk, case, rep, sim, circuit, u, record)
     except core.LeanError:
         raise
     except Bad as b:
@@ -785,6 +1037,65 @@ def eval_case(chk, case, rep=None, prepared=None):
             raise
         fails.append(("violation", f"{kind}-raises-{type(e).__name__}",
                       f"{type(e).__name__}: {str(e)[:160]} on a legal {kind} input", {"case": case}))
+    return fails
+
+
+def step_case(case, step):
+    return {"kind": step["kind"], "m": case["m"], "engine": case["engine"], "prec": case["prec"], "circ": case["circ"],
+            "members": step["members"], "outs": step.get("outs", [])}
+
+
+def describe_step(step):
+    mbs = step["members"]
+    if step["kind"] == "bs":
+        return f"probs/evolve of {build_bs(mbs[0]['terms'][0]['state'])}"
+    if step["kind"] == "sv":
+        return f"probs/evolve of {build_sv(mbs[0]['terms'])}"
+    body = ", ".join(f"{build_sv(mb['terms'])}: {mb['w']}" for mb in mbs)
+    return ("density matrix of {" if step["kind"] == "dm" else "probs_svd of {") + body + "}"
+
+
+def judge_session(chk, case, reps, sim, circuit, u):
+    """the property does not depend on what the Simulator object answered before: every request of the sequence is
+    judged on the SAME long-lived simulator exactly as a lone request is on a new one; a failure that a new simulator
+    does not show for the same input is a dependence on the history (a confirmed violation: the answer for this input
+    differs from the exact value, and the same code on the same input gives the exact value)"""
+    fails = []
+    steps = case["steps"]
+    chk.branch("session")
+    if len({st["kind"] for st in steps}) >= 2:
+        chk.branch("session-mixed-kinds")
+    seen_dm = {}                                  # n_max -> basis states populated by the earlier density matrices
+    for i, (step, rep) in enumerate(zip(steps, reps)):
+        sub = step_case(case, step)
+        if step["kind"] == "dm":
+            sts = {tuple(occ(t["state"])) for mb in step["members"] for t in mb["terms"]}
+            nmax = max(sum(x) for x in sts)
+            if nmax in seen_dm:
+                chk.branch("session-dm-same-basis")
+                if sts - seen_dm[nmax]:
+                    chk.branch("session-dm-new-support")
+                if sts < seen_dm[nmax]:
+                    chk.branch("session-dm-sub-support")
+            seen_dm[nmax] = seen_dm.get(nmax, set()) | sts
+        f1 = judge_one(chk, sub, rep, sim, circuit, u)
+        if not f1:
+            continue
+        sigs2 = set()
+        if i > 0:
+            fresh = make_sim(case["engine"], circuit, 0 if case["prec"] == "0" else None)
+            sigs2 = {f[1] for f in judge_one(Rec(chk.thorough), sub, rep, fresh, circuit, u)}
+        hist = [f for f in f1 if f[1] not in sigs2] if i > 0 else []
+        for k, sig, what, detail in f1:
+            if i == 0 or sig in sigs2:
+                fails.append((k, sig, what, dict(detail, case=case, step=i)))
+        if hist:
+            k, sig, what, detail = hist[0]
+            before = "; ".join(describe_step(st) for st in steps[:i])
+            fails.append(("violation", "history-" + step["kind"],
+                          f"request {i + 1} on one long-lived Simulator (same circuit; before: {before}): {what} — a new "
+                          f"Simulator answers this very input correctly ({sig})", dict(detail, case=case, step=i)))
+            break                                 # the simulator's state is no longer the one a correct history leaves
     return fails
 
 
@@ -992,6 +1303,15 @@ def judge_svd(chk, case, rep, sim, circuit, u, record):
     chk.branch("svd-generic" if rep["superposed"] else "svd-fast")
     if any(len(set(sum(len(x) for x in t["state"]) for t in mb["terms"])) > 1 for mb in members):
         chk.branch("svd-split")
+    ov = overlap_info(members)
+    if "shared" in ov:
+        chk.branch("svd-shared-basis-states")
+    if "member+sector" in ov:
+        chk.branch("svd-sector-is-member")
+    if "sector+sector" in ov:
+        chk.branch("svd-sector-twice")
+    if default and ov & {"member+sector", "sector+sector"}:
+        chk.branch("svd-key-accumulates-default-precision")
     tot = sum(Fraction(mb["w"]) for mb in members)
     if tot != 1:
         chk.branch("svd-unnormalised-weights")
@@ -1028,7 +1348,7 @@ def judge_svd(chk, case, rep, sim, circuit, u, record):
             record("mixture-perf", f"perf ({r['physical_perf']}, {r['logical_perf']}) without any selection", False, True)
         return
     # default precision: members below the threshold are trimmed
-    if rep["kept"] < len(members):
+    if Fraction(rep["cutMass"]) > 0:
         chk.branch("trim-fires")
     cut, inner = trim_bound(case, rep, m)
     chk.count("trim_bound", f"1e{int(math.floor(math.log10(cut + inner + 1e-300)))}")
@@ -1193,6 +1513,9 @@ def judge_dm(chk, case, rep, sim, circuit, u, record):
                prop_dm_svd())
 
 
+JUDGES.update({"bs": judge_bs, "sv": judge_sv, "svd": judge_svd, "dm": judge_dm})
+
+
 # ------------------------------------------------------------------------------------------------
 # shrinking
 # ------------------------------------------------------------------------------------------------
@@ -1204,6 +1527,29 @@ def shrink(chk, case, sig):
             return False
 
     cur = copy.deepcopy(case)
+    if cur["kind"] == "session":
+        def f0(steps):
+            c = copy.deepcopy(cur)
+            c["steps"] = steps
+            c["members"] = [mb for st in steps for mb in st["members"]]
+            return fails_with(c)
+        cur["steps"] = gens.shrink_list(cur["steps"], f0, max_rounds=12)
+        for i, st in enumerate(cur["steps"]):
+            if len(st["members"]) > 1:
+                def f4(ms, i=i):
+                    c = copy.deepcopy(cur)
+                    c["steps"][i]["members"] = ms
+                    return fails_with(c)
+                st["members"] = gens.shrink_list(st["members"], f4, max_rounds=8)
+        cur["members"] = [mb for st in cur["steps"] for mb in st["members"]]
+        comps = cur["circ"]["comps"]
+        if len(comps) > 1:
+            def f5(cs):
+                c = copy.deepcopy(cur)
+                c["circ"]["comps"] = cs
+                return fails_with(c)
+            cur["circ"]["comps"] = gens.shrink_list(comps, f5, max_rounds=12)
+        return cur
     comps = cur["circ"]["comps"]
     if len(comps) > 1:
         def f1(cs):
@@ -1233,11 +1579,11 @@ def shrink(chk, case, sig):
 class Rec:
     """what `eval_case` needs of a Check, picklable: branch / histogram counters (merged by the parent)"""
 
-    def __init__(self, thorough):
+    def __init__(self, thorough, lean=None):
         self.thorough = thorough
         self.branches = {}
         self.hist = {}
-        self.lean = None
+        self.lean = lean
 
     def branch(self, name, n=1):
         self.branches[name] = self.branches.get(name, 0) + n
@@ -1262,7 +1608,8 @@ def _work(args):
 
 def signature(case):
     return (case["kind"], case["m"], case["engine"], case["prec"],
-            json.dumps(case["members"], sort_keys=True), json.dumps(case["circ"]["comps"], sort_keys=True))
+            json.dumps(case.get("steps", case["members"]), sort_keys=True),
+            json.dumps(case["circ"]["comps"], sort_keys=True))
 
 
 def nontrivial(case):
@@ -1272,6 +1619,8 @@ def nontrivial(case):
         return len(tags_of(st)) >= 2 and len(case["circ"]["comps"]) >= 2
     if k in ("sv", "svd", "dm"):
         return len(case["circ"]["comps"]) >= 2 and sum(len(mb["terms"]) for mb in case["members"]) >= 2
+    if k == "session":
+        return len(case["circ"]["comps"]) >= 2 and len(case["steps"]) >= 2
     return False
 
 
@@ -1300,6 +1649,7 @@ def handle(chk, case, rep=None, prepared=None, done=None):
         res = eval_case(chk, case, rep, prepared)
     chk.case(signature(case), nontrivial=nontrivial(case),
              sample={"kind": kind, "m": case["m"], "engine": case["engine"], "prec": case["prec"],
+                     "steps": [st["kind"] for st in case.get("steps", [])],
                      "members": [[mb["w"], [(t["coef"], t["state"]) for t in mb["terms"]]] for mb in case["members"]][:3],
                      "comps": [(o, l["t"]) for o, l in case["circ"]["comps"]]})
     seen = set()
@@ -1313,6 +1663,15 @@ def handle(chk, case, rep=None, prepared=None, done=None):
                 small = shrink(chk, case, sig)
             except Exception:
                 small = case
+        if small is not case:
+            # describe the minimised input, not the one it was found on
+            try:
+                for k2, sig2, what2, detail2 in eval_case(Rec(chk.thorough, chk.lean), small):
+                    if sig2 == sig and k2 == k:
+                        what, detail = what2, detail2
+                        break
+            except Exception:
+                pass
         detail = dict(detail, case=small)
         chk.fail(k, sig, what, detail)
 
@@ -1329,8 +1688,10 @@ def run(chk: core.Check):
                 "rational and Haar) on m modes, engines SLOS and Naive; inputs: tagged Fock states (0–4 tags, several "
                 "tags per mode), superpositions with rational rescaled coefficients (equal/unequal photon numbers, tagged "
                 "or not), mixtures with rational weights (normalised or not; Fock members → fast path, superpositions → "
-                "generic path; precision 0 and default precision with members below the threshold), density matrices "
-                "built from mixtures; distinct = distinct (kind, m, engine, precision, members, circuit); non-trivial = "
+                "generic path; precision 0 and default precision with members below the threshold; members sharing basis "
+                "states, a member that is a photon-number sector of another member, two members with a common sector), "
+                "density matrices built from mixtures; sessions: one long-lived Simulator answering 3–5 requests of "
+                "different kinds, among them density matrices of one FockBasis populating different basis states; distinct = distinct (kind, m, engine, precision, members, circuit); non-trivial = "
                 "circuit of ≥ 2 components and (≥ 2 tags | ≥ 2 basis states in the input)")
     chk.assumptions = [
         "the circuit's matrix is the one compute_unitary() reports (C01/C14); the backends return the boson-sampling "
@@ -1339,7 +1700,13 @@ def run(chk: core.Check):
         "compared on every case, not verified",
         "every photon of a tagged state carries a tag `_:k` (the native rule that attaches un-tagged photons to the first "
         "tagged group is not modelled); no heralds, post-selection, detectors or photon filter (C04)",
-        "members of a mixture are pairwise distinct with pairwise distinct basis states",
+        "members of a mixture are pairwise distinct state vectors (they may share basis states); two parts of a mixture "
+        "(members, photon-number sectors) that are the same normalised vector are presented only when both are a "
+        "single basis state with a real positive coefficient (one dict key, deterministically); positively "
+        "proportional superpositions of several components, whose identity as dict keys is decided by a native "
+        "floating-point hash, are not generated",
+        "a session keeps the circuit, the precision and the (empty) selection fixed: caches across configurations are "
+        "C05's subject",
         "the native StateVector discards components of modulus < 1e-6 (global_params['min_complex_component']): where "
         "the exact value has such a contribution the tolerance of evolve-based results is widened by exactly that "
         "contribution (counted in branch native-amplitude-cutoff), otherwise it is 1e-9",
@@ -1354,6 +1721,11 @@ def run(chk: core.Check):
                              "budget-trims-member", "default-precision-superposed-multigroup", "budget-discriminating",
                              "gen:sv-history", "gen:dm-nonreal-phase", "gen:default-precision-superposed-multigroup",
                              "gen:budget-discriminating", "gen:budget-trims-member", "gen:threshold-bites-generic",
+                             "svd-shared-basis-states", "svd-sector-is-member", "svd-sector-twice",
+                             "svd-key-accumulates-default-precision", "session", "session-mixed-kinds",
+                             "session-dm-same-basis", "session-dm-new-support",
+                             "gen:svd-sector-is-member", "gen:svd-sector-twice", "gen:svd-shared-basis-states",
+                             "gen:session-dm-new-support",
                              "pa-zero", "pa-nonzero", "rejected"]
     rng = chk.rng
     n_lean = chk.pick(4, 8)
@@ -1364,10 +1736,11 @@ def run(chk: core.Check):
             handle(chk, case)
         # shapes that the stored cases hit by construction must ALSO come out of the random generator
         gen_shapes = ["sv-history", "dm-nonreal-phase", "default-precision-superposed-multigroup", "budget-discriminating",
-                      "budget-trims-member", "threshold-bites-generic"]
+                      "budget-trims-member", "threshold-bites-generic", "svd-sector-is-member", "svd-sector-twice",
+                      "svd-shared-basis-states", "session-dm-new-support"]
         before = {b: chk.branches.get(b, 0) for b in gen_shapes}
-        plan = chk.pick({"bs": 110, "sv": 90, "svd": 80, "svd-default": 70, "dm": 40, "bad": 30},
-                        {"bs": 1500, "sv": 1300, "svd": 1400, "svd-default": 600, "dm": 600, "bad": 300})
+        plan = chk.pick({"bs": 110, "sv": 90, "svd": 90, "svd-default": 70, "dm": 40, "session": 36, "bad": 30},
+                        {"bs": 1500, "sv": 1300, "svd": 1400, "svd-default": 600, "dm": 600, "session": 400, "bad": 300})
         cases = []
         for name, cnt in plan.items():
             for _ in range(cnt):
@@ -1375,21 +1748,27 @@ def run(chk: core.Check):
                     cases.append(gen_malformed(rng))
                 elif name == "svd-default":
                     cases.append(gen_case(rng, chk, "svd", "default"))
+                elif name == "session":
+                    cases.append(gen_session(rng, chk))
                 else:
                     cases.append(gen_case(rng, chk, name, "0"))
         rng.shuffle(cases)
         cases = [c for c in cases if c["members"]]
         prepared = [prepare(c) for c in cases]
-        reqs = [lean_request(c, p[1]) for c, p in zip(cases, prepared)]
-        reps = [None] * len(cases)
+        reqs, owner = [], []
+        for ci, (c, p) in enumerate(zip(cases, prepared)):
+            for r in lean_requests(c, p[1]):
+                reqs.append(r)
+                owner.append(ci)
+        flat = [None] * len(reqs)
         errs = []
 
         def worker(k):
             try:
-                idx = list(range(k, len(cases), n_lean))
+                idx = list(range(k, len(reqs), n_lean))
                 out = drivers[k].ask_many([reqs[i] for i in idx])
                 for i, r in zip(idx, out):
-                    reps[i] = r
+                    flat[i] = r
             except Exception as e:  # noqa
                 errs.append(e)
 
@@ -1400,6 +1779,12 @@ def run(chk: core.Check):
             t.join()
         if errs:
             raise errs[0]
+        reps = [[] if c["kind"] == "session" else None for c in cases]
+        for ci, r in zip(owner, flat):
+            if cases[ci]["kind"] == "session":
+                reps[ci].append(r)
+            else:
+                reps[ci] = r
         import multiprocessing as mp
         nproc = max(2, min(chk.pick(6, 12), (os.cpu_count() or 4) - 1))
         with mp.get_context("spawn").Pool(nproc) as pool:
